@@ -94,6 +94,8 @@ def main():
     watchdog = getattr(mod, "WATCHDOG", {}).get(tier, 3600)
     work = tempfile.mkdtemp(prefix="vf-%s-" % prop.lower())
     procs = []
+    child_env = dict(os.environ)
+    child_env.update(getattr(mod, "CHILD_ENV", {}))
     try:
         for i in range(nshards):
             out = os.path.join(work, "shard%d.json" % i)
@@ -116,6 +118,7 @@ def main():
                     subprocess.Popen(
                         cmd,
                         cwd=core.VERIF_DIR,
+                        env=child_env,
                         stdout=subprocess.PIPE,
                         stderr=subprocess.STDOUT,
                     ),
